@@ -693,6 +693,82 @@ func runConnClose(out caser, nchan, cap int, nqueued []int, peer, transport, nfa
 	out.Case(7, in, sx.L{sx.I(b), closed, sx.I(tclosed), sx.I(readerEnded), sx.I(gok)}, tag)
 }
 
+// ---------------------------------------------------------------- fn 9
+// Close while ANOTHER goroutine waits in NextPackage(ctx, wait=true) on the same channel.
+// variant 0: Channel.Close of a logical channel | 1: Conn.Close (the consumer waits on a logical channel) |
+//         2: Channel.Close of channel 0, the peer never answers the logout (the logout's own wait ends after a minute)
+// cancelAfter: the consumer's context is cancelled shortly after Close was called (then Close must return);
+//              otherwise it stays live for as long as Close is observed.
+// input (variant cancelAfter) output (close-returned consumer-result)   consumer-result only with cancelAfter
+func runCloseWaits(out caser, variant int, cancelAfter bool, bound time.Duration) {
+	peer := 0
+	kind := 1
+	if variant == 2 {
+		peer, kind = 2, 0
+	}
+	e := newC13(4, peer)
+	defer e.shutdown()
+	ch := e.channel(kind)
+	ca := int64(0)
+	if cancelAfter {
+		ca = 1
+	}
+	in := sx.L{sx.I(int64(variant)), sx.I(ca)}
+	tag := fmt.Sprintf("close-waits-for-consumer;variant=%d", variant)
+	if cancelAfter {
+		tag = fmt.Sprintf("close-consumer-cancelled;variant=%d", variant)
+	}
+	if ch == nil {
+		out.Case(9, in, sx.L{sx.I(-8)}, tag+";newchannel-failed")
+		return
+	}
+	ctx, cancel := context.WithCancel(context.Background())
+	type r struct {
+		p   tds.Package
+		err error
+	}
+	cons := make(chan r, 1)
+	go func() {
+		p, err := ch.NextPackage(ctx, true)
+		cons <- r{p, err}
+	}()
+	time.Sleep(30 * time.Millisecond) // the consumer is parked in its select now, holding the channel's read lock
+	closed := make(chan struct{})
+	go func() {
+		defer func() { recover(); close(closed) }()
+		if variant == 1 {
+			e.conn.Close()
+		} else {
+			ch.Close()
+		}
+	}()
+	if cancelAfter {
+		time.Sleep(50 * time.Millisecond)
+		cancel()
+		bound = hangBound
+		if variant == 2 {
+			bound = logoutMin
+		}
+	}
+	ret := int64(0)
+	select {
+	case <-closed:
+		ret = 1
+	case <-time.After(bound):
+	}
+	res := sx.L{sx.I(ret)}
+	if cancelAfter {
+		select {
+		case x := <-cons:
+			res = append(res, resTree(x.p, x.err, true))
+		case <-time.After(hangBound):
+			res = append(res, resTree(nil, nil, false))
+		}
+	}
+	cancel() // lets a blocked Close finish (the harness process goes on)
+	out.Case(9, in, res, tag)
+}
+
 // caser is what a scenario writes its case line to (the case file, or a buffer when scenarios run in parallel)
 type caser interface {
 	Case(fn int, in, out sx.T, tag string)
@@ -862,12 +938,21 @@ func mainC13(rng *sx.Rng, out caser, thorough bool) {
 			}
 		}
 	}
+	// Close while another goroutine is parked in NextPackage with a live context (known finding), and with a context
+	// that is cancelled meanwhile (Close must return)
+	for _, variant := range []int{0, 1} {
+		variant := variant
+		fs = append(fs, func(c caser) { runCloseWaits(c, variant, false, knownBound) })
+		fs = append(fs, func(c caser) { runCloseWaits(c, variant, true, hangBound) })
+	}
 	if thorough {
 		// a peer that never answers the logout: Close returns after the documented minute
 		for _, nfed := range []int{0, 1} {
 			nfed := nfed
 			fs = append(fs, func(c caser) { runCloseFill(c, 0, cap, nfed, nfed, 2, logoutMin) })
 		}
+		fs = append(fs, func(c caser) { runCloseWaits(c, 2, false, logoutMin) })
+		fs = append(fs, func(c caser) { runCloseWaits(c, 2, true, logoutMin) })
 	}
 	parallel(out, 64, fs)
 	lap("close-fill")
